@@ -23,6 +23,7 @@ type World struct {
 	specs  map[string]*SpecFunc
 	funcs  map[string]*ssa.Function // by short name
 	images map[string]*GlobalImage  // "pkg.name" -> runtime image
+	tier   string
 	mu     sync.Mutex
 }
 
@@ -65,6 +66,7 @@ type Engine struct {
 	inputs        []*Term // terms whose model values identify a counterexample
 	inputNames    []string
 	specCallCache map[string]SV
+	deferred      []string // clauses only checked in the thorough tier
 }
 
 func loadWorld(repo string, pkgPatterns []string) (*World, error) {
@@ -122,6 +124,13 @@ func loadWorld(repo string, pkgPatterns []string) (*World, error) {
 }
 
 const modelBytes = 48
+
+func paramName(n string, i int) string {
+	if n == "" || n == "_" {
+		return fmt.Sprintf("arg%d", i)
+	}
+	return n
+}
 
 func (w *World) newEngine() *Engine {
 	tb := NewTB()
@@ -234,7 +243,7 @@ func (e *Engine) imageBytes(img *GlobalImage, hint string) []*Term {
 		}
 		pv = tb.Fresh(fmt.Sprintf("rom.%s.%d", hint, k), BV(64))
 		e.assume(tb.Ult(tb.ConstU(4096, 64), pv))
-		e.assume(tb.Ult(pv, tb.ConstU(addrLimit-(1<<32), 64)))
+		e.assume(tb.Ult(pv, tb.ConstU(preLimit-(1<<32), 64)))
 		e.rom[pv] = e.imageBytes(p.Target, fmt.Sprintf("%s.%d", hint, k))
 		for i := 0; i < 8; i++ {
 			bs[p.Off+i] = tb.Extract(i*8+7, i*8, pv)
@@ -260,6 +269,7 @@ type JobResult struct {
 	Err        string
 	engine     *Engine
 	Inputs     []string
+	Deferred   []string
 }
 
 func (w *World) verifyFunc(name string, con *Contract) (jr *JobResult) {
@@ -295,8 +305,8 @@ func (w *World) verifyFunc(name string, con *Contract) (jr *JobResult) {
 	var inv []*Term
 	args := make([]Val, len(fn.Params))
 	for i, p := range fn.Params {
-		args[i] = e.freshVal(p.Name(), p.Type(), &inv)
-		e.addInputs(p.Name(), args[i])
+		args[i] = e.freshVal(paramName(p.Name(), i), p.Type(), &inv)
+		e.addInputs(paramName(p.Name(), i), args[i])
 	}
 	free := make([]Val, len(fn.FreeVars))
 	for i, p := range fn.FreeVars {
@@ -361,7 +371,7 @@ func (w *World) verifyFunc(name string, con *Contract) (jr *JobResult) {
 		if ptr != nil {
 			for k := 0; k < modelBytes; k++ {
 				e.inputs = append(e.inputs, e.mc.Read8(mem0, tb.Add(ptr, tb.ConstU(uint64(k), 64))))
-				e.inputNames = append(e.inputNames, fmt.Sprintf("%s[%d]", p.Name(), k))
+				e.inputNames = append(e.inputNames, fmt.Sprintf("%s[%d]", paramName(p.Name(), i), k))
 			}
 		}
 	}
@@ -399,6 +409,7 @@ func (jr *JobResult) collect(e *Engine) {
 	sort.Strings(jr.Used)
 	jr.Bounded = e.boundedLoops
 	jr.Inputs = e.inputNames
+	jr.Deferred = e.deferred
 }
 
 func (e *Engine) addInputs(name string, v Val) {
